@@ -39,6 +39,23 @@ def run(ctx):
                 ctx.corr_broken.append("model and pkg/cache disagree (%d lines), first: %s\ncase:\n%s" % (len(mism), mism[0], case_of(tr, ln)))
             if not ctx.cov["samples"]:
                 ctx.cov["samples"] = open(tr).read().splitlines()[:12]
+    # concurrent callers: a concrete failing schedule when the operations stop being atomic (judged directly)
+    if ok and hx and not ctx.replay:
+        tr = os.path.join(ctx.work, "conc.trace")
+        rounds, per = ("3", "3000") if ctx.tier == "quick" else ("40", "6000")
+        if ctx.run_harness(hx, ["-mode", "conc", "-cases", rounds, "-len", per], tr):
+            lines = open(tr).read().splitlines()
+            bad = [l for l in lines if l.startswith("CONC-FAIL")]
+            good = [l for l in lines if l.startswith("CONC-OK")]
+            traces.append(("conc", (bad + good + ["no verdict line"])[0]))
+            for l in bad:
+                ctx.monitor_fail.append({"what": l, "signature": "cache concurrent " + l.split(": ", 1)[1][:60],
+                                         "case": "hxcache -mode conc -cases %s -len %s   (schedule-dependent: re-run until it shows)\n%s" % (rounds, per, l)})
+            if not bad and not good:
+                ctx.corr_broken.append("hxcache -mode conc produced no verdict line")
+            for l in good:
+                m = [int(x.split("=")[1]) for x in l.split()[1:]]
+                ctx.cov["traces_validated_against_impl"] += m[0]; ctx.cov["evaluations"] += m[1]
     ctx.cov["rule"] = ("cases = seeded random op sequences over policies x capacities {1..10,99,100,101,200} x expiry x sync/async, "
                        "plus all sequences up to a bounded length over 15 operations on 3 keys; an operation counts as non-trivial "
                        "when it evicted, hit, or expired an entry (counted by the model driver, not distinct-deduplicated beyond that)")
